@@ -42,14 +42,14 @@ def _eval_variant(task):
         if kind == 'refactoring':
             new_v = _viol_keys(ctx) - base
             decided = len([o for o in ctx.obs if o.status in ('holds', 'violated')])
-            if decided < mod.FLOOR:
+            if decided < mod.FLOOR and not getattr(ctx, 'outside_model', None):
                 return kind, name, 'noisy', ['FLOOR: only %d obligations decided (< %d)' % (decided, mod.FLOOR)]
             return kind, name, 'silent' if not new_v else 'noisy', sorted({k[0] for k in new_v})
         if kind == 'equivalent':
             new_v = {k[:2] for k in _viol_keys(ctx)} - {k[:2] for k in base}
             if _W.get('floor') is not None:
                 decided = len([o for o in ctx.obs if o.status in ('holds', 'violated')])
-                if decided < _W['floor']:
+                if decided < _W['floor'] and not getattr(ctx, 'outside_model', None):
                     return kind, name, 'noisy', ['FLOOR: only %d obligations decided (< %d): the check would exit 2 (analysis error) on this rewrite' % (decided, _W['floor'])]
             if _W.get('details'):
                 return kind, name, 'silent' if not new_v else 'noisy', sorted('%s: %s' % (o.rule, o.detail[:170]) for o in ctx.obs if o.status == 'violated' and (o.rule, o.where) in new_v)
